@@ -28,8 +28,8 @@ def verif_hash():
 
 
 TIERS = {
-    'quick': dict(n_gen=26, configs=['tail', 'sm_safe'], n_random=60, all_bytes=False, cb_p=0.25),
-    'thorough': dict(n_gen=160, configs=['tail', 'tail_safe', 'sm', 'sm_safe'], n_random=300, all_bytes=True, cb_p=0.25),
+    'quick': dict(n_gen=26, configs=['tail', 'tail_safe', 'sm', 'sm_safe', 'trace'], n_random=60, all_bytes=False, cb_p=0.25),
+    'thorough': dict(n_gen=160, configs=['tail', 'tail_safe', 'sm', 'sm_safe', 'trace', 'sm_trace'], n_random=300, all_bytes=True, cb_p=0.25),
 }
 
 
@@ -72,18 +72,35 @@ def lexrun(seed, tier, log=print, extra_modes=('p',)):
     for i in accepted:
         for b in inputs[i]:
             reqs.append('%d n %s' % (i, P.hexs(b)))
-    # partial mode on a subset of inputs
+    # partial mode: for a sample of inputs S, every prefix S[..k] (C07)
     preqs = []
+    pfx = {}
     for i in accepted:
-        for b in inputs[i][:: max(1, len(inputs[i]) // 150)]:
+        Rp = random.Random(seed * 1000 + i)
+        cands = [b for b in inputs[i] if 2 <= len(b) <= 24]
+        Rp.shuffle(cands)
+        chosen = cands[:cfg.get('n_partial', 30)]
+        fam = set()
+        for S in chosen:
+            for k in range(len(S) + 1):
+                pr = S[:k]
+                if corpus[i].utf8 and not P.is_valid_utf8(list(pr)):
+                    continue
+                fam.add(pr)
+        pfx[i] = (chosen, sorted(fam))
+        for b in sorted(fam):
             preqs.append('%d p %s' % (i, P.hexs(b)))
+    treqs = []
+    for i in accepted:
+        for b in inputs[i][:: max(1, len(inputs[i]) // 300)]:
+            treqs.append('%d t %s' % (i, P.hexs(b)))
     zoo_out = {}
     for c, b in builds.items():
         if not b['ok']:
             zoo_out[c] = None
             continue
         t1 = time.time()
-        outs = Z.run_zoo(b['bin'], reqs + preqs, nproc=6)
+        outs = Z.run_zoo(b['bin'], treqs if 'trace' in c else reqs + preqs, nproc=6)
         zoo_out[c] = outs
         log('lexrun: zoo run %s: %d requests %.1fs' % (c, len(outs), time.time() - t1))
     # lean
@@ -95,14 +112,17 @@ def lexrun(seed, tier, log=print, extra_modes=('p',)):
         for b in inputs[i]:
             lines.append('Q LEX n ' + P.hexs(b))
             lines.append('Q SPEC ' + P.hexs(b))
-        for b in inputs[i][:: max(1, len(inputs[i]) // 150)]:
+        for b in pfx[i][1]:
             lines.append('Q LEX p ' + P.hexs(b))
+            lines.append('Q PSPEC ' + P.hexs(b))
+        for b in inputs[i][:: max(1, len(inputs[i]) // 300)]:
+            lines.append('Q LEX t ' + P.hexs(b))
     t1 = time.time()
     lean = P.run_lean(lines, nproc=12)
     log('lexrun: lean driver %d answers %.1fs' % (len(lean), time.time() - t1))
     r = dict(key=key, seed=seed, tier=tier, corpus=corpus, srcs=srcs, caps=caps, accepted=accepted, inputs=inputs,
              stats=stats, builds={c: dict(ok=b['ok'], secs=b['secs'], stderr=b['stderr'][-4000:]) for c, b in builds.items()},
-             reqs=reqs, preqs=preqs, zoo_out=zoo_out, lean=lean, wall=time.time() - t0, cached=False)
+             reqs=reqs, preqs=preqs, treqs=treqs, pfx=pfx, zoo_out=zoo_out, lean=lean, wall=time.time() - t0, cached=False)
     pickle.dump(r, open(cpath, 'wb'))
     return r
 
@@ -130,7 +150,7 @@ if __name__ == '__main__':
                 mism += 1
                 if mism <= 10:
                     print('MODEL-MISMATCH', c, k, '\n   impl :', v, '\n   model:', mv)
-            if mode == 'n':
+            if mode == 'n' and 'trace' not in c:
                 sv = lean.get('%s SPEC %s' % (idx, hx))
                 if sv is not None and sv != 'LOOK' and sv != v:
                     specm += 1
